@@ -94,6 +94,10 @@ def feasible_items(tier):
         sp = F.with_teams(fl, "POOL2")
         sp = dict(sp, teams=[dict(tm, wire="ctor") for tm in sp["teams"]])
         out.append((sp, {"rule": "TSLACK", "max_time": F.seq_bound(sp) + 6}))
+    # automatic tasks bound to a component (workplace without space limit): feasible without any free worker
+    for sp in F.auto_placement_specs():
+        for aa in (False, True):
+            out.append((sp, {"rule": "TSLACK", "auto_abs": aa, "max_time": F.seq_bound(sp) + 4}))
     if tier == "thorough":
         for fl in F.flows(4, F.KINDS4, (1,)):
             sp = F.with_teams(fl, "DED")
